@@ -182,6 +182,47 @@ def const_truth(node):
 _HOOK = {'enum': None}
 
 
+def _property_value(en, name):
+    """The expression a read-only property `name` of the current frame's
+    class returns, when its body is one call-free `return` over self."""
+    fr = en._stack[-1]
+    cls = fr.cls
+    if cls is None:
+        return None
+    cache = en.__dict__.setdefault('_props', {})
+    k = (cls.qual, name)
+    if k in cache:
+        return copy.deepcopy(cache[k]) if cache[k] is not None else None
+    out = None
+    try:
+        m = en.prog.find_method(cls.qual, name)
+    except Exception:
+        m = None
+    if m is not None and any(isinstance(d, ast.Name) and d.id == 'property'
+                             for d in m.node.decorator_list) and len(
+                                 m.node.decorator_list) == 1:
+        body = [b for b in m.node.body if not (
+            isinstance(b, ast.Expr) and isinstance(b.value, ast.Constant))]
+        if len(body) == 1 and isinstance(body[0], ast.Return) and \
+                body[0].value is not None and not has_call(body[0].value):
+            v = body[0].value
+            private_field = isinstance(v, ast.Attribute) and isinstance(
+                v.value, ast.Name) and v.value.id == 'self' and \
+                v.attr.startswith('_')
+            names = {n.id for n in ast.walk(v) if isinstance(n, ast.Name)}
+            setter = any(
+                isinstance(d, ast.Attribute) and d.attr in ('setter',
+                                                            'deleter')
+                and isinstance(d.value, ast.Name) and d.value.id == name
+                for c in en.prog.classes.values()
+                for f2 in c.methods.values()
+                for d in f2.node.decorator_list)
+            if not private_field and names <= {'self'} and not setter:
+                out = v
+    cache[k] = out
+    return copy.deepcopy(out) if out is not None else None
+
+
 def _fold_lookup(node):
     """Fold lookups whose container is spelled out: a field of a namedtuple
     built right there, an entry of a dict display."""
@@ -213,6 +254,14 @@ def _fold_lookup(node):
                     isinstance(d.args[0].value, str):
                 return ast.copy_location(ast.Constant(
                     value=d.args[0].value.replace('-', '_')), node)
+    if isinstance(node, ast.Attribute) and isinstance(node.ctx, ast.Load) \
+            and isinstance(node.value, ast.Name) and node.value.id == 'self' \
+            and en is not None and en._stack:
+        # self.<computed property>: what the property returns (a getter of
+        # a private field keeps its name: it is that field's public alias)
+        x = _property_value(en, node.attr)
+        if x is not None:
+            return x
     if isinstance(node, ast.Attribute) and isinstance(node.ctx, ast.Load) \
             and isinstance(node.value, ast.Call) and en is not None:
         ra = en.prog.record_args(en._stack[-1].module, node.value)
@@ -261,6 +310,60 @@ def _fold_lookup(node):
                     orelse=out)
             return out
     return None
+
+
+def _unroll_display_comp(node):
+    """A comprehension over a display written out right there is the display
+    of its instances: {k: f(v) for k, v in {'a': x, 'b': y}.items()} is
+    {'a': f(x), 'b': f(y)}; [f(x) for x in (a, b)] is [f(a), f(b)]."""
+    if not isinstance(node, (ast.DictComp, ast.ListComp)) or len(
+            node.generators) != 1:
+        return node
+    g = node.generators[0]
+    if g.ifs or g.is_async:
+        return node
+    it = g.iter
+    rows = None
+    if isinstance(it, ast.Call) and isinstance(it.func, ast.Attribute) and \
+            it.func.attr in ('items', 'keys', 'values') and not it.args \
+            and not it.keywords and isinstance(it.func.value, ast.Dict) \
+            and 0 < len(it.func.value.keys) <= 6 and all(
+                isinstance(k, ast.Constant) for k in it.func.value.keys):
+        d = it.func.value
+        if it.func.attr == 'items':
+            rows = [ast.Tuple(elts=[k, v], ctx=ast.Load())
+                    for k, v in zip(d.keys, d.values)]
+        elif it.func.attr == 'keys':
+            rows = list(d.keys)
+        else:
+            rows = list(d.values)
+    elif isinstance(it, (ast.Tuple, ast.List)) and 0 < len(it.elts) <= 6 \
+            and not any(isinstance(e, ast.Starred) for e in it.elts):
+        rows = list(it.elts)
+    if rows is None:
+        return node
+    tg = g.target
+    out = []
+    for r in rows:
+        if isinstance(tg, ast.Name):
+            env = {tg.id: r}
+        elif isinstance(tg, (ast.Tuple, ast.List)) and isinstance(
+                r, (ast.Tuple, ast.List)) and len(tg.elts) == len(
+                    r.elts) and all(isinstance(x, ast.Name)
+                                    for x in tg.elts):
+            env = {x.id: y for x, y in zip(tg.elts, r.elts)}
+        else:
+            return node
+        sub = _Subst(env)
+        if isinstance(node, ast.DictComp):
+            out.append((sub.visit(copy.deepcopy(node.key)),
+                        sub.visit(copy.deepcopy(node.value))))
+        else:
+            out.append(sub.visit(copy.deepcopy(node.elt)))
+    if isinstance(node, ast.DictComp):
+        return ast.copy_location(ast.Dict(keys=[k for k, _ in out],
+                                          values=[v for _, v in out]), node)
+    return ast.copy_location(ast.List(elts=out, ctx=ast.Load()), node)
 
 
 class _Subst(ast.NodeTransformer):
@@ -366,7 +469,7 @@ class _Subst(ast.NodeTransformer):
                 node.elt = self.visit(node.elt)
         finally:
             self.shadow.pop()
-        return node
+        return _unroll_display_comp(node)
 
     visit_ListComp = visit_SetComp = visit_GeneratorExp = _comp
     visit_DictComp = _comp
@@ -476,6 +579,8 @@ class Enumerator:
             return expr
         enum = self
 
+        touched = self.__dict__.get('_touched', ())
+
         class X(ast.NodeTransformer):
             def visit_Name(self, node):
                 if node.id in enum.defs:
@@ -483,6 +588,22 @@ class Enumerator:
                     if isinstance(d, ast.AST):
                         return enum.expand(d, depth - 1)
                 return node
+
+            def _comp(self, node):
+                # a comprehension over a display nothing was done to
+                g = node.generators[0] if len(node.generators) == 1 else None
+                base = None
+                if g is not None:
+                    it = g.iter
+                    if isinstance(it, ast.Call) and isinstance(
+                            it.func, ast.Attribute):
+                        it = it.func.value
+                    if isinstance(it, ast.Name) and it.id.startswith(
+                            'SYM_m') and it.id not in touched:
+                        base = it.id
+                node = self.generic_visit(node)
+                return _unroll_display_comp(node) if base else node
+            visit_DictComp = visit_ListComp = _comp
         return X().visit(copy.deepcopy(expr))
 
     # ----------------------------------------------------------------- run
@@ -642,6 +763,22 @@ class Enumerator:
                                 ('SYM_u', 'SYM_e', 'SYM_x'))
                             for n in ast.walk(full)):
                         return False
+            if isinstance(op, ast.Is) and isinstance(b, ast.Attribute) \
+                    and self._class_sentinel(b):
+                # the same for a private class-level `object()` read as
+                # self.X / cls.X / Class.X
+                if isinstance(a, ast.Attribute) and a.attr == b.attr and \
+                        self._class_sentinel(a):
+                    return True
+                if (key_of(a), U_(b)) in self.__dict__.get('_notsent', ()):
+                    return False
+                full = self.expand(a)
+                if not any(isinstance(n, ast.Attribute) and n.attr == b.attr
+                           for n in ast.walk(full)) and not any(
+                        isinstance(n, ast.Name) and n.id.startswith(
+                            ('SYM_u', 'SYM_e', 'SYM_x'))
+                        for n in ast.walk(full)):
+                    return False
             if isinstance(op, ast.Is) and isinstance(b, ast.Constant) \
                     and b.value is None:
                 if isinstance(a, (ast.List, ast.Tuple, ast.Dict, ast.Set,
@@ -832,6 +969,59 @@ class Enumerator:
         return name in self.prog._module_const_names(module) and \
             isinstance(v, ast.Call) and isinstance(v.func, ast.Name) and \
             v.func.id == 'object' and not v.args
+
+    def _class_sentinel(self, e):
+        """`e` reads a class attribute bound to object() in a class body
+        that nothing stores to and that only occurs as an operand of `is`,
+        as a call argument, or as the value of a plain local assignment or
+        return."""
+        if not (isinstance(e, ast.Attribute) and isinstance(e.value,
+                                                            ast.Name)):
+            return False
+        cache = self.__dict__.setdefault('_cls_sent', {})
+        name = e.attr
+        if name not in cache:
+            from .util import parent_map
+            defs = [c for c in self.prog.classes.values()
+                    if name in c.class_attrs]
+            ok = len(defs) == 1
+            if ok:
+                v = defs[0].class_attrs[name]
+                ok = isinstance(v, ast.Call) and isinstance(
+                    v.func, ast.Name) and v.func.id == 'object' and \
+                    not v.args
+            if ok:
+                for m in self.prog.units:
+                    pm = None
+                    for n in ast.walk(m.tree):
+                        if isinstance(n, ast.Attribute) and n.attr == name:
+                            if not isinstance(n.ctx, ast.Load):
+                                ok = False
+                                continue
+                            pm = pm or parent_map(m.tree)
+                            par = pm.get(n)
+                            if isinstance(par, ast.Compare) or (
+                                    isinstance(par, ast.Call)
+                                    and n in par.args) or isinstance(
+                                        par, ast.Return) or (
+                                    isinstance(par, ast.IfExp)
+                                    and n is not par.test) or (
+                                    isinstance(par, ast.Assign)
+                                    and par.value is n and all(
+                                        isinstance(t, ast.Name)
+                                        for t in par.targets)):
+                                continue
+                            ok = False
+                        elif isinstance(n, ast.Constant) and n.value == name:
+                            ok = False      # getattr / setattr by name
+            cache[name] = defs[0].qual if ok else None
+        q = cache[name]
+        if q is None:
+            return False
+        if e.value.id in ('self', 'cls'):
+            f = self._stack[-1]
+            return f.cls is not None and q in self.prog.mro(f.cls.qual)
+        return self.prog.resolve(self._stack[-1].module, e.value) == q
 
     def _sentinel_private(self, module, name):
         """The sentinel never gets into a container or an attribute: the
@@ -1174,6 +1364,23 @@ class Enumerator:
         ct = const_truth(it)
         if ct is not None:
             return ct
+        if isinstance(it, ast.Call) and isinstance(it.func, ast.Name) and \
+                it.func.id in ('tuple', 'list', 'sorted', 'reversed', 'iter',
+                               'set', 'frozenset') and len(it.args) == 1 \
+                and not [k for k in it.keywords if k.arg != 'key' and
+                         k.arg != 'reverse'] and self.prog.resolve(
+                    self._stack[-1].module, it.func) == \
+                'builtin:' + it.func.id:
+            # a copy / reordering of a collection is as empty as it is
+            inner = it.args[0]
+            r = self._iter_truth(inner, st)
+            if r is not None:
+                return r
+            k = key_of(subst(inner, {}, st.attrs) if (
+                self.track_attrs and st.attrs) else inner)
+            if k in st.facts:
+                return st.facts[k]
+            return None
         if isinstance(it, ast.Call) and not it.args and not it.keywords:
             mc = method_call(it)
             if mc and mc[1] in ('items', 'keys', 'values') and isinstance(
@@ -1353,6 +1560,18 @@ class Enumerator:
         e = Event(kind, node, line, self.frame, value=value, sym=sym,
                   nconds=len(st.conds), raw=raw)
         st.events.append(e)
+        # displays that something is done to after they were written
+        tgt = None
+        if kind in ('store', 'aug', 'del') and isinstance(
+                node, (ast.Subscript, ast.Attribute)):
+            tgt = node.value
+        elif kind in ('call', 'maycall') and isinstance(node, ast.Call):
+            if isinstance(node.func, ast.Attribute) and node.func.attr not in (
+                    'items', 'keys', 'values', 'get', 'copy', 'index',
+                    'count', '__contains__', '__getitem__'):
+                tgt = node.func.value
+        if isinstance(tgt, ast.Name) and tgt.id.startswith('SYM_m'):
+            self.__dict__.setdefault('_touched', set()).add(tgt.id)
         return e
 
     def _unpartial(self, expr):
@@ -2063,6 +2282,30 @@ class Enumerator:
             if status[0] == 'return':
                 rv = status[1] if status[1] is not None else ast.Constant(
                     value=None)
+                if not isinstance(rv, (ast.Constant, ast.Name)) and \
+                        saved_env:
+                    # the answer is written in terms of the caller's values
+                    # at the time of the call: where the caller has rebound
+                    # one of the names it mentions, a second substitution
+                    # would read the wrong binding
+                    rebound = {k: v for k, v in s.env.items()
+                               if not (isinstance(v, ast.Name)
+                                       and v.id == k)}
+
+                    def close(x):
+                        if isinstance(x, (ast.Tuple, ast.List)) and not any(
+                                isinstance(e, ast.Starred) for e in x.elts):
+                            return type(x)(elts=[close(e) for e in x.elts],
+                                           ctx=ast.Load())
+                        if isinstance(x, (ast.Constant, ast.Name)):
+                            return x
+                        try:
+                            if key_of(subst(x, rebound)) != key_of(x):
+                                return self.fresh(x, 'v')
+                        except Exception:
+                            pass
+                        return x
+                    rv = close(rv)
                 if sentinel and not isinstance(rv, ast.Constant):
                     self.__dict__.setdefault('_notnone', set()).add(
                         key_of(rv))
